@@ -26,7 +26,7 @@ Section Success.
 
   Lemma fresh_std_ok (cr : bool) b y :
     batch_ok T b = true ->
-    In y (fresh (st_amt_std T) false (if cr then 220 else 225) (sb_ident b)
+    In y (fresh (st_amt_std T) false (if cr then 220 else 225) (sb_num b) (sb_ident b)
                 (filter (goes (st_seg_std T) (dir_of cr)) (sb_entries b))) ->
     batch_ok T y = true.
   Proof.
